@@ -97,6 +97,8 @@ static const struct rtr_socket *src_ptr(unsigned long s)
 {
 	if (s == 1)
 		return &rsock;
+	if (s == 0)
+		return NULL; /* a record added by the application itself: no socket */
 	return (const struct rtr_socket *)(uintptr_t)(0x10000 + s * 64);
 }
 
@@ -104,6 +106,8 @@ static unsigned long src_id(const struct rtr_socket *p)
 {
 	if (p == &rsock)
 		return 1;
+	if (!p)
+		return 0;
 	return ((uintptr_t)p - 0x10000) / 64;
 }
 
